@@ -2,6 +2,7 @@
 convert it with the shipped TextQueryTestBackend and report what is observable through the API:
 order of SigmaCollection.rules (by title), raised exception class + phase, list of emitted queries,
 and the queries the conversion callback saw per rule (the rule's own queries)."""
+from impl.excname import exc_name
 import copy, json, os, tempfile, shutil, uuid
 import yaml
 from pathlib import Path
@@ -44,7 +45,7 @@ def build(d):
 
 
 def _exc(e, phase):
-    return {"phase": phase, "exc": type(e).__name__, "sigma": isinstance(e, SigmaError)}
+    return {"phase": phase, "exc": exc_name(e), "sigma": isinstance(e, SigmaError)}
 
 
 def as_kind(items, kind):
